@@ -492,14 +492,16 @@ def in_hypothesis(case):
         for path, f in d:
             if not zone_free(f['body'], T) or not cls_ok(case, f['body'], path, f['kind']):
                 return False
+            if f['kind'] == 'text' and not text_ok(f['body']):
+                return False          # a text template that calls a macro
     return True
 
 
 def modelled(case):
-    """what the Lean model covers: text files within the text-template sub-language"""
+    """what the Lean model covers: text files that the text syntax can express"""
     for d in case['dirs']:
         for _, f in d:
-            if f['kind'] == 'text' and 'body' in f and not text_ok(f['body']):
+            if f['kind'] == 'text' and 'body' in f and not _text_printable(f['body']):
                 return False
     return True
 
@@ -1089,7 +1091,7 @@ class Gen(object):
                     return ['def', rng.choice(self.macros), self.nodes(depth - 1, svars, lvars, False, in_fb)]
                 finally:
                     self.in_def -= 1
-            if markup and (self.zone or not zone) and not self.in_def and self.here not in self.lower:
+            if (markup or self.zone) and (self.zone or not zone) and not self.in_def and self.here not in self.lower:
                 return ['call', rng.choice(self.macros)]
             return ['text', rand_text(rng)]
         if r < 0.96 and markup and self.use_match:
